@@ -15,6 +15,8 @@ R8.5  update formulas: Newton x' = x + a with J(x)·a = −f(x); polynomial Newt
       in the row space sᵀH (Broyden's good update in Sherman–Morrison form), the step is −H'·f and the iterate advances by it.
 R8.6  guarded Aitken quotient: the Δ² quotient is 0/0 exactly at the fixed point and must be guarded.
 R8.8  Steffensen's update is numerically stable near convergence: first-order rounding sensitivities of the returned iterate stay bounded as d → 0.
+R8.9  Muller's method (rules/muller.py): carried quantities are the divided differences at the three points (entry and after the shift),
+      the step is a root of the interpolating parabola, the larger denominator is chosen.
 R8.7  copy-paste deviant: the three start points of Muller's method are built from their own components.
 """
 import sympy as sp
@@ -87,120 +89,6 @@ class RInterp(guards.GInterp):
             if hasattr(base, "free_symbols"):
                 return sp.Function("at")(base)
             raise
-
-
-class BroydenInterp(RInterp):
-    """One loop iteration of `secant` at a concrete dimension: vectors and matrices are sympy matrices of symbols, the user function
-    returns a fresh symbolic vector per call."""
-    DIM = 2
-
-    def __init__(self, *a, **k):
-        RInterp.__init__(self, *a, **k)
-        self.fresh = []
-
-    def num(self, v, n):
-        if isinstance(v, sp.MatrixBase):
-            return v
-        return RInterp.num(self, v, n)
-
-    def user_call(self, pl, args, n):
-        k = len(self.fresh)
-        v = sp.ImmutableMatrix(self.DIM, 1, [sp.Symbol("fnew%d_%d" % (k, i), real=True) for i in range(self.DIM)])
-        self.fresh.append((pl, args, v))
-        return v
-
-    def binop(self, op, a, b, n):
-        if isinstance(a, sp.MatrixBase) or isinstance(b, sp.MatrixBase):
-            try:
-                if op == "Add":
-                    return sp.ImmutableMatrix(a + b)
-                if op == "Sub":
-                    return sp.ImmutableMatrix(a - b)
-                if op == "Mul":
-                    return sp.ImmutableMatrix(a * b)
-                if op == "Div" and not isinstance(b, sp.MatrixBase):
-                    return sp.ImmutableMatrix(a / b)
-            except (sp.ShapeError, TypeError, ValueError) as e:
-                raise sym.Unsupported(n, "matrix shapes: %s" % e)
-            raise sym.Unsupported(n, "matrix op %s" % op)
-        return RInterp.binop(self, op, a, b, n)
-
-    def ev_MCall(self, n):
-        name = n["name"]
-        if name in ("transpose", "norm", "as_slice", "clone", "clone_owned", "into_owned", "norm_squared"):
-            v = self.ev(n["recv"])
-            if isinstance(v, sp.MatrixBase):
-                if name == "transpose":
-                    return sp.ImmutableMatrix(v.T)
-                if name == "norm":
-                    return NORM(sp.Symbol("vec[%s]" % ",".join(str(sp.simplify(x)) for x in v)[:60]))
-                if name == "norm_squared":
-                    return sum((x ** 2 for x in v), sp.Integer(0))
-                return v
-        return RInterp.ev_MCall(self, n)
-
-    def ev_Index(self, n):
-        base = self.ev(n["e"])
-        if isinstance(base, sp.MatrixBase):
-            idx = self.ev(n["i"])
-            if isinstance(idx, tuple) and all(getattr(i, "is_Integer", False) for i in idx):
-                return base[int(idx[0]), int(idx[1])]
-            if getattr(idx, "is_Integer", False):
-                return base[int(idx)]
-            raise sym.Unsupported(n, "symbolic matrix index")
-        return RInterp.ev_Index(self, n)
-
-
-def check_broyden(F, run, dim=2):
-    """R8.5 (secant): the rank-one update of the inverse Jacobian is Broyden's 'good' update in Sherman–Morrison form.  With H the old
-    inverse, s the last step and y the change of the function value, the new inverse H' is characterised by
-      (i)  the secant equation  H'·y = s,   and
-      (ii) H' − H = w·(sᵀH) for some column w (rank one, rows proportional to sᵀH),
-    checked as polynomial identities for a 2×2 system with symbolic entries (non-symmetric H, so Hs and Hᵀs differ); then the step is −H'·f."""
-    path = "roots::secant"
-    b = F.fn(path)
-    run.analysed(b)
-    st, loop = loop_of(b)
-    BroydenInterp.DIM = d = dim
-    H = sp.ImmutableMatrix(d, d, [sp.Symbol("H%d%d" % (i, j), real=True) for i in range(d) for j in range(d)])
-    s = sp.ImmutableMatrix(d, 1, [sp.Symbol("s%d" % i, real=True) for i in range(d)])
-    fo = sp.ImmutableMatrix(d, 1, [sp.Symbol("fold%d" % i, real=True) for i in range(d)])
-    x = sp.ImmutableMatrix(d, 1, [sp.Symbol("x%d" % i, real=True) for i in range(d)])
-    vals = dict(c07.constant_locals(F, b))
-    vals.update({"jac_inv": H, "shift": s, "func_eval": fo, "guess": x})
-    try:
-        lps = paths.explore(F, b, setup=c07.preset_all(b, vals), node=loop["body"], interp_cls=BroydenInterp, limit=16)
-    except sym.Unsupported as u:
-        run.broken("R8.5", path, "broyden", F.loc(b, u.node if isinstance(u.node, dict) else loop), "cannot evaluate one iteration at dimension %d: %s" % (d, u))
-        return
-    n = 0
-    for p in lps:
-        env = {nm: p.interp.env.get(i) for i, nm in p.interp.names.items()}
-        H2, s2, fn, x2 = env.get("jac_inv"), env.get("shift"), env.get("func_eval"), env.get("guess")
-        if not all(isinstance(v, sp.MatrixBase) for v in (H2, s2, fn, x2)) or not p.interp.fresh:
-            run.broken("R8.5", path, "broyden", F.loc(b, loop), "state after one iteration is not a matrix state")
-            return
-        n += 1
-        y = fn - fo
-        # the function is evaluated once, at the current iterate
-        pl, args, v = p.interp.fresh[0]
-        at = args[0] if args else None
-        run.check(len(p.interp.fresh) == 1 and isinstance(at, sp.MatrixBase) and (at - x).is_zero_matrix, "R8.5", path, "broyden:evaluated-at-iterate", F.loc(b, loop),
-                  "the function is evaluated %d time(s), at %s; expected once at the current iterate" % (len(p.interp.fresh), at))
-        sec = (H2 * y - s).applyfunc(lambda e: sp.cancel(sp.together(e)))
-        run.check(sec.is_zero_matrix, "R8.5", path, "broyden:secant-equation", F.loc(b, loop),
-                  "the updated inverse Jacobian H' does not satisfy the secant equation H'·(f_new − f_old) = last step (%d×%d symbolic system, non-symmetric H): "
-                  "defect component 0 = %s" % (d, d, str(sp.factor(sec[0]))[:160]), sample="H'·y = s")
-        dH = (H2 - H).applyfunc(lambda e: sp.cancel(sp.together(e)))
-        u = (s.T * H)
-        minors = [sp.cancel(sp.together(dH[i, j] * u[0, k] - dH[i, k] * u[0, j])) for i in range(d) for j in range(d) for k in range(j + 1, d)]
-        run.check(all(m == 0 for m in minors), "R8.5", path, "broyden:rank-one-in-row-space-sTH", F.loc(b, loop),
-                  "H' − H is not of the form w·(sᵀH): its rows are not proportional to sᵀH (Sherman–Morrison form of Broyden's update)", sample="H' − H = w·(sᵀH)")
-        stp = (s2 + H2 * fn).applyfunc(lambda e: sp.cancel(sp.together(e)))
-        run.check(stp.is_zero_matrix, "R8.5", path, "broyden:step", F.loc(b, loop), "the new step is not −H'·f(x)", sample="step = −H'·f")
-        run.check((x2 - x - s2).applyfunc(lambda e: sp.cancel(sp.together(e))).is_zero_matrix, "R8.5", path, "broyden:iterate-update", F.loc(b, loop),
-                  "the iterate is not advanced by the new step")
-    run.floor("R8.5", path, "iteration paths", n, 1, F.loc(b))
 
 
 class RoundInterp(RInterp):
@@ -606,10 +494,15 @@ def run(F, run, tier):
             run.broken("R8.2", path, "anchor", "src/roots", str(e))
     check_linear_algebra(F, run)
     check_formulas(F, run, lps_by_fn)
+    from rules import broyden, muller
     try:
-        check_broyden(F, run, 3 if tier == "thorough" else 2)
+        broyden.check(F, run, F.fn("roots::secant"), "R8.5", "roots::secant", 3 if tier == "thorough" else 2)
     except Missing as e:
         run.broken("R8.5", "roots::secant", "anchor", "src/roots", str(e))
+    try:
+        muller.check(F, run)
+    except Missing as e:
+        run.broken("R8.9", muller.PATH, "anchor", "src/roots/polynomial.rs", str(e))
     check_aitken_guard(F, run)
     try:
         check_steffensen_stability(F, run)
